@@ -9,10 +9,9 @@
 (*  - NewIdx:  index - cumsum(is_control), controls overwritten with -1                              *)
 (*  - Lookup:  left merge on (name, dose); a miss raises ("failed")                                  *)
 (*  - Valid:   numpy_array_is_0_indexed_integers on a supplied mapping's id column                   *)
-EXTENDS Naturals, Integers, Sequences, FiniteSets, SequencesExt, TLC, Json
+EXTENDS EncodingOps, TLC, Json
 
-CONSTANTS Names, Doses,      \* token alphabets of the exhaustive model
-          Zero,              \* the dose token of 0.0
+CONSTANTS Names, Doses,      \* token alphabets of the exhaustive model (Zero, the dose token of 0.0, is EncodingOps')
           Arity, NRows,
           Ctls,              \* control-name tokens explored (may contain a token outside Names = absent)
           Mode,              \* "treat": treatment encoder;  "oned": the 1-d encoder (samples, plates)
@@ -26,59 +25,6 @@ VARIABLES rows,   \* Seq of rows; a row is a Seq(Arity) of <<name, dose>>   (Mod
           phase,  \* 0: inputs chosen; 1: encodings computed (one Compute step, so that TLC's workers share the work)
           full, subres
 vars == <<rows, ctl, sub, drop, phase, full, subres>>
-
-(* ---------------- the treatment encoder ---------------- *)
-PairLess(p, q) == p[1] < q[1] \/ (p[1] = q[1] /\ p[2] < q[2])
-
-Stack(rs, ar) == [x \in 1..(Len(rs) * ar) |-> rs[((x - 1) % Len(rs)) + 1][((x - 1) \div Len(rs)) + 1]]
-
-Uniq(st) == SetToSortSeq({st[x] : x \in 1..Len(st)}, PairLess)
-
-IsCtl(p, c) == p[1] = c \/ p[2] <= Zero
-
-NewIdx(u, c) == [x \in 1..Len(u) |->
-                   IF IsCtl(u[x], c) THEN -1
-                   ELSE (x - 1) - Cardinality({y \in 1..x : IsCtl(u[y], c)})]
-
-\* a mapping is a sequence of <<name, dose, id>>
-MappingOf(st, c) == LET u == Uniq(st) IN [x \in 1..Len(u) |-> <<u[x][1], u[x][2], NewIdx(u, c)[x]>>]
-
-Covered(st, mp) == \A x \in 1..Len(st) : \E y \in 1..Len(mp) : mp[y][1] = st[x][1] /\ mp[y][2] = st[x][2]
-Lookup(p, mp) == mp[CHOOSE y \in 1..Len(mp) : mp[y][1] = p[1] /\ mp[y][2] = p[2]][3]
-
-\* numpy_array_is_0_indexed_integers
-Valid(idcol) == LET S == {idcol[x] : x \in 1..Len(idcol)} IN
-                IF -1 \in S THEN S = {-1} \cup (0..Cardinality(S) - 2) ELSE S = 0..Cardinality(S) - 1
-
-\* ids as a matrix rows x arity (np.vstack(np.split(encoded, arity)).T)
-Unstack(flat, nr, ar) == [r \in 1..nr |-> [a \in 1..ar |-> flat[(a - 1) * nr + r]]]
-
-EncodeTreat(rs, ar, c) ==
-    LET st == Stack(rs, ar)
-        mp == MappingOf(st, c)
-    IN [status |-> "ok", mapping |-> mp,
-        ids |-> Unstack([x \in 1..Len(st) |-> Lookup(st[x], mp)], Len(rs), ar)]
-
-EncodeTreatWith(rs, ar, mp) ==
-    LET st == Stack(rs, ar) IN
-    IF ~Valid([y \in 1..Len(mp) |-> mp[y][3]]) THEN [status |-> "invalid-mapping", mapping |-> mp, ids |-> << >>]
-    ELSE IF ~Covered(st, mp) THEN [status |-> "failed", mapping |-> mp, ids |-> << >>]
-    ELSE [status |-> "ok", mapping |-> mp,
-          ids |-> Unstack([x \in 1..Len(st) |-> Lookup(st[x], mp)], Len(rs), ar)]
-
-\* ExperimentSpace.n_unique_treatments
-NUniqueTreatments(mp) == Cardinality({mp[y][3] : y \in 1..Len(mp)} \ {-1})
-
-(* ---------------- the 1-d encoder (samples, plates) ---------------- *)
-Uniq1(ns) == SetToSortSeq({ns[x] : x \in 1..Len(ns)}, <)
-Mapping1(ns) == LET u == Uniq1(ns) IN [x \in 1..Len(u) |-> <<u[x], x - 1>>]
-Lookup1(v, mp) == mp[CHOOSE y \in 1..Len(mp) : mp[y][1] = v][2]
-Encode1(ns) == LET mp == Mapping1(ns) IN [status |-> "ok", mapping |-> mp, ids |-> [x \in 1..Len(ns) |-> Lookup1(ns[x], mp)]]
-Encode1With(ns, mp) ==
-    IF ~Valid([y \in 1..Len(mp) |-> mp[y][2]]) THEN [status |-> "invalid-mapping", mapping |-> mp, ids |-> << >>]
-    ELSE IF \E x \in 1..Len(ns) : \A y \in 1..Len(mp) : mp[y][1] # ns[x] THEN [status |-> "failed", mapping |-> mp, ids |-> << >>]
-    ELSE [status |-> "ok", mapping |-> mp, ids |-> [x \in 1..Len(ns) |-> Lookup1(ns[x], mp)]]
-NUniqueSamples(mp) == Cardinality({mp[y][1] : y \in 1..Len(mp)})
 
 (* ---------------- state space: every input of the small scope ---------------- *)
 Row == IF Mode = "treat" THEN [1..Arity -> Names \X Doses] ELSE Names
